@@ -258,7 +258,7 @@ func init() {
 // VerifC02SortBytes: Sort and SortAbsolute return normally on lists whose names and values hold
 // arbitrary bytes (invalid UTF-8 included) after equal prefixes; the URL serializes afterwards.
 func VerifC02SortBytes() {
-	k := vnd.Param("C02.KSortBytes", 2, 3)
+	k := vnd.Param("C02.KSortBytes", 2, 2)
 	pre := []string{"", "a", "caf"}[vnd.Pick(3)]
 	n1 := pre + vnd.Str(vnd.Len(k))
 	n2 := pre + vnd.Str(vnd.Len(k))
